@@ -64,6 +64,7 @@ package mice
 //@   requires maxRecordSize <= 4294967296
 //@   ensures[record-size-limits] err == nil ==> typeis(rd, *decoder) && (unboxed(rd, *decoder).nextProof != nil ==> 1 <= unboxed(rd, *decoder).recordSize && unboxed(rd, *decoder).recordSize <= maxRecordSize && decReady(unboxed(rd, *decoder)))
 //@   ensures[consumed-eight] err == nil ==> spos(r) == old(spos(r)) + 8 || spos(r) == old(spos(r))
+//@   ensures[new-decoder] err == nil ==> fresh(unboxed(rd, *decoder))
 //@   ensures spos(r) >= old(spos(r)) && spos(r) <= send(r)
 //@   assigns spos(r)
 
